@@ -27,6 +27,8 @@ type GConf struct {
 	Binds     [][3]string // acl, direction, interface ("" = global)
 	Routes    []string
 	Extra     []string // further lines / blocks, printed verbatim
+	noTargetCrypto bool // set by Device: the target has no IOS crypto map
+	GDOI      int      // IOS device: number of entries of the hand-made GETVPN crypto map (gdoi, not supported by Netspoc) bound to the interfaces without managed crypto map
 	VPN       *GVPN
 	VRF       string // IOS: all managed interfaces and routes belong to this VRF
 	IOSCrypto *GIOSCrypto
@@ -52,6 +54,7 @@ func (c *GConf) clone() *GConf {
 	n.Binds = append(n.Binds, c.Binds...)
 	n.Routes = append(n.Routes, c.Routes...)
 	n.Extra = append(n.Extra, c.Extra...)
+	n.GDOI = c.GDOI
 	n.VPN = c.VPN.clone()
 	n.IOSCrypto = c.IOSCrypto.clone()
 	n.Perm = append(n.Perm, c.Perm...)
@@ -141,6 +144,11 @@ func (c *GConf) Text(device bool) string {
 		}
 	}
 	b.WriteString(c.IOSCrypto.text())
+	if device {
+		for i := 0; i < c.GDOI; i++ {
+			fmt.Fprintf(&b, "crypto map GETVPN %d gdoi\n set group GDOI-%d\n", 10*(i+1), i+1)
+		}
+	}
 	order := make([]int, len(c.Intfs))
 	for i := range order {
 		order[i] = i
@@ -164,6 +172,8 @@ func (c *GConf) Text(device bool) string {
 		}
 		if c.IOSCrypto != nil && c.IOSCrypto.Intf == n {
 			fmt.Fprintf(&b, " crypto map %s\n", c.IOSCrypto.Map)
+		} else if device && c.GDOI > 0 {
+			b.WriteString(" crypto map GETVPN\n")
 		}
 	}
 	for _, r := range c.Routes {
@@ -581,6 +591,7 @@ func renameInLines(a *GACL, old, new string) {
 // Device derives the device side from target t.
 func (g *Gen) Device(t *GConf, nedits int, unmanaged bool) (*GConf, []string) {
 	d := t.clone()
+	d.noTargetCrypto = t.IOSCrypto == nil
 	if d.VPN != nil && d.VPN.LDAPHosts < 0 {
 		// Device form of the LDAP server group: one to three hosts.
 		d.VPN.LDAPHosts = 1 + (len(d.VPN.Entries)+len(d.VPN.Tunnels)+len(d.VPN.Users))%3
@@ -1153,6 +1164,13 @@ func (g *Gen) addUnmanaged(d *GConf) {
 	}
 	d.ACLs = append(d.ACLs, &GACL{"manual_acl", []string{"permit ip host 192.168.7.1 any", "deny ip any any"}})
 	d.ACLs = append(d.ACLs, &GACL{"mgmt_in", []string{"permit tcp host 192.168.7.1 any eq 22", "deny ip any any"}})
+	// GETVPN: crypto map of type gdoi with one or two groups on the managed
+	// interfaces (decided by generated content, no further draw).
+	// Only where Netspoc wants no crypto map of its own: an interface
+	// holds one crypto map.
+	if d.noTargetCrypto {
+		d.GDOI = len(d.ACLs) % 3
+	}
 	if d.VRF != "" {
 		// A VRF Netspoc does not know: interfaces bound to ACLs with
 		// generated names, and a static route.
